@@ -42,14 +42,16 @@ impl Drop for RepSocket {
 #[async_trait]
 impl Socket for RepSocket {
     fn with_options(options: SocketOptions) -> Self {
-        let fair_queue = FairQueue::new(true);
+        let mut fair_queue = FairQueue::new(true);
+        let backend = Arc::new(RepSocketBackend {
+            peers: scc::HashMap::new(),
+            fair_queue_inner: fair_queue.inner(),
+            socket_monitor: Mutex::new(None),
+            socket_options: options,
+        });
+        crate::backend::forget_ended_peers(&mut fair_queue, &backend);
         Self {
-            backend: Arc::new(RepSocketBackend {
-                peers: scc::HashMap::new(),
-                fair_queue_inner: fair_queue.inner(),
-                socket_monitor: Mutex::new(None),
-                socket_options: options,
-            }),
+            backend,
             envelope: None,
             current_request: None,
             fair_queue,
